@@ -333,6 +333,15 @@ def run_case(ctx, index: int, *, salt="hist"):
     fresh_kwargs = {"njob": 2, "resources": fm.resources}
     reverted = sorted(_reverted_env(hist))
     found, summary = evaluate(initial, hist.events, final_project, sim_seed, fresh_kwargs, reverted)
+    # A project in which a non-optional step consumes an amended output of an optional step cannot be built from
+    # scratch (the output is unknown until the optional step has run, and nothing known needs that step); the
+    # incremental build remembers the relation from the time the step was not optional.
+    amended_by_optional = {p for st in fm.steps if getattr(st, "optional", False) for p in getattr(st, "amend_out", [])}
+    consumed = {p for st in fm.steps for p in list(st.inp) + list(st.amend_inp)}
+    if amended_by_optional & consumed:
+        found = [((sig.rsplit(":", 1)[0] + ":amended-output-of-optional-step-consumed", what, extra)
+                  if sig.startswith("incremental-build-succeeds-where-scratch-is-") and sig.endswith(":unexplained")
+                  else (sig, what, extra)) for sig, what, extra in found]
     summary.update({"index": index, "mutations": hist.mutations})
     if any(not sig.startswith("out-of-scope:") for sig, _, _ in found):
         hist.explicit = buildkit.pack_case(initial, hist.events, final_project, sim_seed, fresh_kwargs,
